@@ -138,6 +138,18 @@ Theorem C07_unresolved_test_crash_refuted :
 Proof. exact ImportProofs.unresolved_test_crash_refuted. Qed.
 Print Assumptions C07_unresolved_test_crash_refuted.
 
+(** What does hold of the post-condition, for the code as it is: after resolveImports = true every import source of
+    the model has its model (the first thing isResolved() tests).  The full statement
+      resolve_true_post_partial : resolveImports = true -> hasUnresolvedImports() = false
+    under (NoErrs, Shallow, AcyclicFiles, NoTwin, history popped or no sibling imports, no dangling references)
+    is NOT PROVED: it needs a second simulation (links written by the fetch ⊇ links read by performTestWithHistory). *)
+Theorem C07_resolve_true_links_partial : forall fuel strict fs st m0 st',
+  resolve_imports fuel strict fs st m0 = Ok (true, st') ->
+  (forall u, In u (imported_units m0) -> units_linked st' u) /\
+  (forall c, In c (imported_comps m0) -> comp_linked st' c).
+Proof. exact ImportProofs.resolve_true_links. Qed.
+Print Assumptions C07_resolve_true_links_partial.
+
 (** 6. K3: cyclic LOCAL units inside an imported file: resolveImports = true without an issue, and the
     pre-flatten scan of flattenModel never returns — out of fuel for EVERY fuel (stack exhaustion). *)
 Theorem C07_flatten_precheck_cyclic_units_refuted :
@@ -146,6 +158,31 @@ Theorem C07_flatten_precheck_cyclic_units_refuted :
                     forall fuel, flatten_precheck no_fixes fuel st' m0 = OutOfFuel.
 Proof. exact ImportProofs.flatten_precheck_cyclic_units_refuted. Qed.
 Print Assumptions C07_flatten_precheck_cyclic_units_refuted.
+
+(** … and on models in which no units and no component depends on itself the pre-checks of flattenModel
+    (checkUnitsForCycles, checkComponentForCycles, hasUnresolvedImports, isDefined) always return — with a value, or
+    with the null dereference of finding C07-null-deref-dangling-units-ref — for every fuel >= Bu + Bc.
+    (Acyclic LOCAL units alone are not enough: finding C07-resolved-test-unbounded-on-import-cycle.) *)
+Theorem C07_flatten_precheck_total : forall fx st m0 urank crank Bu Bc,
+  NoSelfDependence st m0 urank crank Bu Bc ->
+  forall fuel, Bu + Bc <= fuel -> flatten_precheck fx fuel st m0 <> OutOfFuel.
+Proof. exact ImportProofs.flatten_precheck_total_spec. Qed.
+Print Assumptions C07_flatten_precheck_total.
+
+Example C07_flatten_precheck_total_nonvacuous :
+  exists urank crank Bu Bc, NoSelfDependence ex_st ex_m0 urank crank Bu Bc /\
+    flatten_precheck no_fixes (Bu + Bc) ex_st ex_m0 = Ok (true, clear_issues ex_st).
+Proof. exact ImportProofs.total_nonvacuous. Qed.
+Print Assumptions C07_flatten_precheck_total_nonvacuous.
+
+(** The flat reading of URLs: for a normalised directory and a plain file name the code's string functions
+    (transcribed in ImportDefs, compared with importer.cpp on every run) give directory ++ name as library key and
+    leave the base path unchanged. *)
+Theorem C07_resolve_path_flat : forall dir name,
+  norm_sep dir = dir -> ends_with_slash dir = true -> no_sep name = true ->
+  import_key name dir = String.append dir name /\ new_base name dir = dir /\ normalise_path dir = dir.
+Proof. exact ImportProofs.resolve_path_flat. Qed.
+Print Assumptions C07_resolve_path_flat.
 
 (** Non-vacuity: a file system that satisfies every hypothesis above, is resolvable, and resolves. *)
 Example C07_nonvacuous :
